@@ -46,7 +46,8 @@ CHECKS = {
  "C17": dict(
    text="Lean 4 theorem `C17.strip_eq_reroot`: for every variable and every well-shaped tree the model of IdentifierStripper equals "
         "re-rooting on the (root, segments) view of paths (Spec.Reroot), proved by recursion along owner chains; absent_id; "
-        "strip_eq_reroot_expr for every typed AST and identifier. Model run against expression_relative_to_identifier on paths of "
+        "strip_eq_reroot_expr for every typed AST and identifier; Props/C17Path: `rooted_at_variable` (a path x/s/rest of ANY depth comes back with root s and the "
+        "remaining segments unchanged and in order) and `rooted_elsewhere` (a path with any other root is returned unchanged). Model run against expression_relative_to_identifier on paths of "
         "depth 1..4 in every operand context x 7 variable names (plain field, inner segment, namespaced); the correspondence is repeated on trees an application has already USED "
         "(every computed attribute of every node read - py_val, full_name -, the tree hashed, printed, compared, traversed).",
    note="Trusted: Lean kernel, standard axioms, Spec/Reroot.lean, harness.",
